@@ -140,18 +140,19 @@ def families(tier):
             twin_args=[1, 0, 2, 0, 0, ns - 1, 0, ns - 1, 0, 5],
         ))
     else:
+        # K = 3 at boundaries (s2 == 0), K = 2 with the second step embedded in a user-code site; four spawn kinds
         fams.append(Family(
             name="prog", fn="tpl_prog", params=P,
-            pre=["size >= -1", "0 <= x1 < 4", "0 <= x2 < %d" % na, "a2 >= -1", "0 <= s2 <= 4",
-                 "0 <= x3 < %d" % na, "a3 >= -1", "x4 == %d" % (na - 1), "a4 == 0", "t >= 0"],
-            parts=parts_product(x1=range(4), x2=range(na - 1), x3=range(na - 1)),
-            twin_args=[1, 0, 2, 0, 0, na - 1, 0, na - 1, 0, 5],
+            pre=["size >= -1", "0 <= x1 < 4", "0 <= x2 < %d" % (na - 1), "a2 >= -1", "0 <= s2 <= 4",
+                 "0 <= x3 < %d" % na, "a3 >= -1", "x4 == %d" % (na - 1), "a4 == 0", "t >= 0", "s2 == 0 or x3 == %d" % (na - 1)],
+            parts=parts_product(x1=range(4), x2=range(na - 1), s2=range(5)),
+            twin_pre=["x1 == 0", "x2 == 2", "s2 == 0"], twin_args=[1, 0, 2, 0, 0, na - 1, 0, na - 1, 0, 5],
         ))
         fams.append(Family(
             name="simple", fn="tpl_simple", params=P,
-            pre=["size >= -1", "x1 == 0", "0 <= x2 < %d" % ns, "a2 >= -1", "0 <= s2 <= 3",
-                 "0 <= x3 < %d" % ns, "a3 >= -1", "x4 == %d" % (ns - 1), "a4 == 0", "t >= 0"],
-            parts=parts_product(x2=range(ns - 1), x3=range(ns - 1)),
-            twin_args=[1, 0, 2, 0, 0, ns - 1, 0, ns - 1, 0, 5],
+            pre=["size >= -1", "x1 == 0", "0 <= x2 < %d" % (ns - 1), "a2 >= -1", "0 <= s2 <= 3",
+                 "0 <= x3 < %d" % ns, "a3 >= -1", "x4 == %d" % (ns - 1), "a4 == 0", "t >= 0", "s2 == 0 or x3 == %d" % (ns - 1)],
+            parts=parts_product(x2=range(ns - 1), s2=range(4)),
+            twin_pre=["x2 == 2", "s2 == 0"], twin_args=[1, 0, 2, 0, 0, ns - 1, 0, ns - 1, 0, 5],
         ))
     return fams
